@@ -177,6 +177,14 @@ pub fn run(tier: Tier, seed: u64) -> ! {
     for case in 0..n {
         multi(&mut rep, seed, case);
     }
+    if crate::txo::rules_as_modelled(&rep) {
+        let n: u64 = std::env::var("C02_OVERLAP").ok().and_then(|s| s.parse().ok()).unwrap_or(tier.pick(400, 12_000));
+        for case in 0..n {
+            crate::txo::overlap_history(&mut rep, seed, case, crate::txo::Mode::Atomicity, &fail);
+        }
+    } else {
+        println!("INFO: property=C02 overlapping-session histories skipped: the set of open findings differs from the one the deviation model was written for");
+    }
     rep.assumptions = vec![
         "a commit that reports an error is produced with the txmgr.commit fail point (query operators never register writes, so no natural conflict can occur through a session)".into(),
         "observers run on the same thread after the ending".into(),
